@@ -328,7 +328,7 @@ Theorem C11_update_container :
   input_ok E D decompress verify pw rb srb pwb es ->
   logical E D decompress verify pw rb srb b = Ok a ->
   Update.update_cmd kd kt excl cond a walk = Ok a' ->
-  let targets := filter (Update.wanted kd) walk in
+  let targets := Update.update_targets kd walk in
   let r := Update.update_pass excl cond a targets [] in
   map abs new = map (Update.fresh kt) (snd (fst r) ++ snd r) ->
   Forall2 carries jobs new ->
@@ -370,7 +370,7 @@ Check C11_update_container :
   input_ok E D decompress verify pw rb srb pwb es ->
   logical E D decompress verify pw rb srb b = Ok a ->
   Update.update_cmd kd kt excl cond a walk = Ok a' ->
-  let targets := filter (Update.wanted kd) walk in
+  let targets := Update.update_targets kd walk in
   let r := Update.update_pass excl cond a targets [] in
   map abs new = map (Update.fresh kt) (snd (fst r) ++ snd r) ->
   Forall2 carries jobs new ->
@@ -414,7 +414,7 @@ Theorem C11_update_container_props :
   input_ok E D decompress verify pw rb srb pwb es ->
   logical E D decompress verify pw rb srb b = Ok a ->
   Update.update_cmd kd kt excl cond a walk = Ok a' ->
-  let targets := filter (Update.wanted kd) walk in
+  let targets := Update.update_targets kd walk in
   let r := Update.update_pass excl cond a targets [] in
   map abs new = map (Update.fresh kt) (snd (fst r) ++ snd r) ->
   Forall2 carries jobs new ->
@@ -436,10 +436,9 @@ Theorem C11_update_container_props :
       filter (UpdateFacts.stays excl cond targets) a ++
       map (Update.fresh kt) (flat_map (UpdateFacts.job excl cond targets) a) ++
       map (Update.fresh kt) (filter (UpdateFacts.not_in a) targets)) /\
-     (NoDup (Update.names a) -> NoDup (map Update.node_name targets) -> NoDup (Update.names a')) /\
+     (NoDup (Update.names a) -> NoDup (Update.names a')) /\
      (excl = [] ->
       cond = 0 ->
-      NoDup (map Update.node_name targets) ->
       forall n : Update.node,
       In n targets ->
       filter (fun e : Update.entry => bytes_eqb (Update.e_path e) (Update.node_name n)) a' =
@@ -469,7 +468,7 @@ Check C11_update_container_props :
   input_ok E D decompress verify pw rb srb pwb es ->
   logical E D decompress verify pw rb srb b = Ok a ->
   Update.update_cmd kd kt excl cond a walk = Ok a' ->
-  let targets := filter (Update.wanted kd) walk in
+  let targets := Update.update_targets kd walk in
   let r := Update.update_pass excl cond a targets [] in
   map abs new = map (Update.fresh kt) (snd (fst r) ++ snd r) ->
   Forall2 carries jobs new ->
@@ -491,10 +490,9 @@ Check C11_update_container_props :
       filter (UpdateFacts.stays excl cond targets) a ++
       map (Update.fresh kt) (flat_map (UpdateFacts.job excl cond targets) a) ++
       map (Update.fresh kt) (filter (UpdateFacts.not_in a) targets)) /\
-     (NoDup (Update.names a) -> NoDup (map Update.node_name targets) -> NoDup (Update.names a')) /\
+     (NoDup (Update.names a) -> NoDup (Update.names a')) /\
      (excl = [] ->
       cond = 0 ->
-      NoDup (map Update.node_name targets) ->
       forall n : Update.node,
       In n targets ->
       filter (fun e : Update.entry => bytes_eqb (Update.e_path e) (Update.node_name n)) a' =
